@@ -49,6 +49,24 @@ func observe(f *icl.File) (what string, p any) {
 				panic(pp)
 			}
 		}},
+		{"one Writer used again after its Write (Write, Flush, Write, Flush)", func() {
+			// whatever the first Write answered, the Writer must stay usable: callers flush and write again
+			for _, e := range allEnc {
+				var buf bytes.Buffer
+				var opts []icl.WriterOption
+				if e.LP {
+					opts = append(opts, icl.WriteVariableLineLengthOption())
+				}
+				if e.EBCDIC {
+					opts = append(opts, icl.WriteEbcdicEncodingOption())
+				}
+				w := icl.NewWriter(&buf, opts...)
+				_ = w.Write(f)
+				w.Flush()
+				_ = w.Write(f)
+				w.Flush()
+			}
+		}},
 		{"Create", func() { _ = f.Create() }},
 		{"CashLetter.Create", func() {
 			for i := range f.CashLetters {
